@@ -46,6 +46,29 @@ fn main() {
             }
             0
         }
+        "bench-tasks" => {
+            // development aid: time generation and execution of interleaved-tasks runs, single-threaded
+            let menu = types::menu();
+            let (mut n, mut tg, mut te) = (0u64, 0u128, 0u128);
+            for run in 0..200_000u64 {
+                let t0 = Instant::now();
+                let spec = gen::make_run(20, run, &menu);
+                let g = t0.elapsed().as_nanos();
+                if spec.tasks.is_empty() {
+                    continue;
+                }
+                let t1 = Instant::now();
+                let _ = exec::run(&spec, by_name(&menu, &spec.ty).unwrap(), false);
+                te += t1.elapsed().as_nanos();
+                tg += g;
+                n += 1;
+                if n >= 2000 {
+                    break;
+                }
+            }
+            println!("{} tasks runs: generation {:.1} us each, execution {:.1} us each", n, tg as f64 / n as f64 / 1e3, te as f64 / n as f64 / 1e3);
+            0
+        }
         "types" => {
             for t in types::menu() {
                 println!("{} bytes={} digit_bytes={} signed={}", t.name(), t.bytes(), t.digit_bytes(), t.signed());
@@ -90,15 +113,16 @@ struct Agg {
     draws: u64,
     nontrivial_runs: u64,
     per_type: BTreeMap<String, u64>,
-    per_mode: [u64; 7],
+    per_mode: [u64; 8],
     interleavings: HashSet<u64>,
+    mode_ns: [u64; 8],
     infallible_runs: u64,
     failing: Vec<(u64, String, String)>, // run index, class, type
 }
 
 impl Agg {
     fn new() -> Agg {
-        Agg { counters: Counters::new(), states: BTreeSet::new(), distinct: HashSet::new(), fp_xor: 0, fp_sum: 0, runs: 0, calls: 0, draws: 0, nontrivial_runs: 0, per_type: BTreeMap::new(), per_mode: [0; 7], interleavings: HashSet::new(), infallible_runs: 0, failing: Vec::new() }
+        Agg { counters: Counters::new(), states: BTreeSet::new(), distinct: HashSet::new(), fp_xor: 0, fp_sum: 0, runs: 0, calls: 0, draws: 0, nontrivial_runs: 0, per_type: BTreeMap::new(), per_mode: [0; 8], interleavings: HashSet::new(), mode_ns: [0; 8], infallible_runs: 0, failing: Vec::new() }
     }
     fn merge(&mut self, o: Agg) {
         for (k, v) in o.counters {
@@ -115,10 +139,13 @@ impl Agg {
         for (k, v) in o.per_type {
             *self.per_type.entry(k).or_insert(0) += v;
         }
-        for i in 0..7 {
+        for i in 0..8 {
             self.per_mode[i] += o.per_mode[i];
         }
         self.interleavings.extend(o.interleavings);
+        for i in 0..8 {
+            self.mode_ns[i] += o.mode_ns[i];
+        }
         self.infallible_runs += o.infallible_runs;
         self.failing.extend(o.failing);
     }
@@ -140,7 +167,7 @@ fn absorb(a: &mut Agg, run: u64, spec: &RunSpec, r: exec::RunResult) {
     }
     a.states.extend(r.states);
     *a.per_type.entry(spec.ty.clone()).or_insert(0) += 1;
-    a.per_mode[(spec.mode as usize).min(6)] += 1;
+    a.per_mode[(spec.mode as usize).min(7)] += 1;
     if let Some(t) = r.interleaving {
         a.interleavings.insert(t);
     }
@@ -155,9 +182,10 @@ fn absorb(a: &mut Agg, run: u64, spec: &RunSpec, r: exec::RunResult) {
 fn explore(menu: &[Box<dyn TyObj>], seed: u64, from: u64, to: u64, threads: usize) -> Agg {
     let next = AtomicU64::new(from);
     let total = Mutex::new(Agg::new());
-    // Interleaved-tasks runs are set aside and executed afterwards with no other worker running: their oracle is
-    // about state hidden in the code under test, and such state would be shared with the other workers' calls.
-    // Executed alone, a tasks run is a pure function of its spec even then (tasks.rs), so what it reports replays.
+    // Interleaved-tasks runs are set aside and executed in a second phase, among themselves. Their oracle is about
+    // state hidden in the code under test; such state would be process-wide and shared with the other workers' calls,
+    // so a failure seen here counts only if it shows again when the run is re-executed alone (the reporting step does
+    // that for every candidate; executed alone a tasks run is a pure function of its spec even then, see tasks.rs).
     let deferred: Mutex<Vec<u64>> = Mutex::new(Vec::new());
     std::thread::scope(|s| {
         for _ in 0..threads {
@@ -176,7 +204,9 @@ fn explore(menu: &[Box<dyn TyObj>], seed: u64, from: u64, to: u64, threads: usiz
                             continue;
                         }
                         let ty = by_name(menu, &spec.ty).unwrap();
+                        let t_run = Instant::now();
                         let r = exec::run(&spec, ty, false);
+                        a.mode_ns[(spec.mode as usize).min(7)] += t_run.elapsed().as_nanos() as u64;
                         absorb(&mut a, run, &spec, r);
                     }
                 }
@@ -188,19 +218,31 @@ fn explore(menu: &[Box<dyn TyObj>], seed: u64, from: u64, to: u64, threads: usiz
     let mut t = total.into_inner().unwrap();
     let mut d = deferred.into_inner().unwrap();
     d.sort_unstable();
-    let dbg = std::env::var("VERIF_DEBUG").is_ok();
-    if dbg {
-        eprintln!("parallel phase done; {} deferred tasks runs", d.len());
-    }
-    for run in d {
-        if dbg {
-            eprintln!("tasks run {}", run);
+    // second phase: the interleaved-tasks runs, among themselves (each is three passes over 2-3 short-lived threads)
+    let next2 = AtomicU64::new(0);
+    let total2 = Mutex::new(Agg::new());
+    std::thread::scope(|s| {
+        for _ in 0..threads {
+            s.spawn(|| {
+                let mut a = Agg::new();
+                loop {
+                    let i = next2.fetch_add(1, Ordering::Relaxed) as usize;
+                    if i >= d.len() {
+                        break;
+                    }
+                    let run = d[i];
+                    let spec = gen::make_run(seed, run, menu);
+                    let ty = by_name(menu, &spec.ty).unwrap();
+                    let t_run = Instant::now();
+                    let r = exec::run(&spec, ty, false);
+                    a.mode_ns[(spec.mode as usize).min(7)] += t_run.elapsed().as_nanos() as u64;
+                    absorb(&mut a, run, &spec, r);
+                }
+                total2.lock().unwrap().merge(a);
+            });
         }
-        let spec = gen::make_run(seed, run, menu);
-        let ty = by_name(menu, &spec.ty).unwrap();
-        let r = exec::run(&spec, ty, false);
-        absorb(&mut t, run, &spec, r);
-    }
+    });
+    t.merge(total2.into_inner().unwrap());
     t.failing.sort();
     t
 }
@@ -451,8 +493,8 @@ fn cmd_run(args: &[String]) -> i32 {
     // ---- samples for the evidence file --------------------------------------------------------------
     // one small run of every mode (mixed with faults, cluster, fault-free twin, fibre walk, span probe), written out
     let mut samples = Vec::new();
-    let mode_names = ["mixed_with_faults", "cluster", "fault_free_twin", "fibre_walk", "span_probe", "census", "interleaved_tasks"];
-    for mode in 0u8..7 {
+    let mode_names = ["mixed_with_faults", "cluster", "fault_free_twin", "fibre_walk", "span_probe", "census", "interleaved_tasks", "division_hunt"];
+    for mode in 0u8..8 {
         for k in 0..t.runs.min(5000) {
             let run = from + k;
             let spec = gen::make_run(seed, run, &menu);
@@ -460,7 +502,7 @@ fn cmd_run(args: &[String]) -> i32 {
             let planned: usize = spec.ops.iter().map(|o| o.calls.len()).sum();
             let small = match mode {
                 1 => planned <= 60 && ty.bytes() <= 16,
-                3 | 4 | 5 => ty.bytes() <= 16,
+                3 | 4 | 5 | 7 => ty.bytes() <= 16,
                 6 => spec.tasks.iter().map(|t| t.ops.iter().map(|o| o.calls.len()).sum::<usize>()).sum::<usize>() <= 10,
                 _ => planned <= 12 && ty.bytes() <= 32,
             };
@@ -579,7 +621,8 @@ fn cmd_run(args: &[String]) -> i32 {
         .set("state_hashes", J::Arr(agg.states.iter().map(|x| J::Int(*x as i128)).collect()))
         .set("fingerprint_xor", J::s(&format!("{:016x}", agg.fp_xor)))
         .set("fingerprint_sum", J::s(&format!("{:016x}", agg.fp_sum)))
-        .set("runs_by_mode", J::obj().set("mixed_with_faults", J::Int(agg.per_mode[0] as i128)).set("cluster", J::Int(agg.per_mode[1] as i128)).set("fault_free_twin", J::Int(agg.per_mode[2] as i128)).set("fibre_walk", J::Int(agg.per_mode[3] as i128)).set("span_probe", J::Int(agg.per_mode[4] as i128)).set("census", J::Int(agg.per_mode[5] as i128)).set("interleaved_tasks", J::Int(agg.per_mode[6] as i128)))
+        .set("runs_by_mode", J::obj().set("mixed_with_faults", J::Int(agg.per_mode[0] as i128)).set("cluster", J::Int(agg.per_mode[1] as i128)).set("fault_free_twin", J::Int(agg.per_mode[2] as i128)).set("fibre_walk", J::Int(agg.per_mode[3] as i128)).set("span_probe", J::Int(agg.per_mode[4] as i128)).set("census", J::Int(agg.per_mode[5] as i128)).set("interleaved_tasks", J::Int(agg.per_mode[6] as i128)).set("division_hunt", J::Int(agg.per_mode[7] as i128)))
+        .set("cpu_seconds_by_mode", J::Arr(agg.mode_ns.iter().map(|x| J::Float(*x as f64 / 1e9)).collect()))
         .set("distinct_interleavings", J::Int(agg.interleavings.len() as i128))
         .set("interleaving_hashes", J::Arr({ let mut v: Vec<u64> = agg.interleavings.iter().copied().collect(); v.sort_unstable(); v.into_iter().map(|x| J::Int(x as i128)).collect() }))
         .set("runs_rng_infallible_personality", J::Int(agg.infallible_runs as i128))
